@@ -800,10 +800,10 @@ theorem stepThread_threads (s : St) (t : Thread) : (stepThread s t).1.threads = 
     | 1 => rfl
     | _ + 2 => rfl
   | get id fl pc sn => cases pc <;> simp only [stepThread] <;> (repeat' split) <;> rfl
-  | delete id pc =>
+  | delete id cf pc =>
     match pc with
-    | 0 => rfl
-    | 1 => rfl
+    | 0 => cases cf <;> rfl
+    | 1 => cases cf <;> rfl
     | _ + 2 => rfl
 
 theorem stepThread_inv (s : St) (t : Thread) (hs : Inv s) (ht : TInv s.puts t) :
@@ -877,10 +877,12 @@ theorem stepThread_inv (s : St) (t : Thread) (hs : Inv s) (ht : TInv s.puts t) :
             · exact ht v' rfl
             · exact hr id' v' hp
     | done => exact ⟨same, ht, fun p hp => hp⟩
-  | delete id pc =>
+  | delete id cf pc =>
+    have eInner : Inv { s with inner := erase s.inner id } := ⟨fun p hp => hi p (mem_erase' _ _ _ hp), hc, hr⟩
+    have eCache : Inv { s with cache := erase s.cache id } := ⟨hi, fun p hp => hc p (mem_erase' _ _ _ hp), hr⟩
     match pc with
-    | 0 => exact ⟨⟨fun p hp => hi p (mem_erase' _ _ _ hp), hc, hr⟩, trivial, fun p hp => hp⟩
-    | 1 => exact ⟨⟨hi, fun p hp => hc p (mem_erase' _ _ _ hp), hr⟩, trivial, fun p hp => hp⟩
+    | 0 => cases cf <;> simp only [stepThread, Bool.false_eq_true, if_true, if_false] <;> first | exact ⟨eInner, trivial, fun p hp => hp⟩ | exact ⟨eCache, trivial, fun p hp => hp⟩
+    | 1 => cases cf <;> simp only [stepThread, Bool.false_eq_true, if_true, if_false] <;> first | exact ⟨eCache, trivial, fun p hp => hp⟩ | exact ⟨eInner, trivial, fun p hp => hp⟩
     | _ + 2 => exact ⟨same, trivial, fun p hp => hp⟩
 
 
@@ -918,7 +920,7 @@ theorem run_ginv (s : St) (sched : List Nat) (h : GInv s) : GInv (run s sched) :
 def fresh : Thread → Prop
   | .put _ _ pc => pc = 0
   | .get _ _ pc sn => pc = .lookup ∧ sn = none
-  | .delete _ pc => pc = 0
+  | .delete _ _ pc => pc = 0
 
 theorem tinv_fresh (puts : List (Nat × Nat)) (t : Thread) (h : fresh t) : TInv puts t := by
   cases t with
@@ -963,14 +965,14 @@ def ref : List (Nat × Nat) → List Thread → List (Nat × Option Nat)
   | _, [] => []
   | inner, .put id v _ :: ts => ref (Cache.Part.insert inner id v) ts
   | inner, .get id _ _ _ :: ts => (id, lookup inner id) :: ref inner ts
-  | inner, .delete id _ :: ts => ref (erase inner id) ts
+  | inner, .delete id _ _ :: ts => ref (erase inner id) ts
 
 theorem runToEnd_fresh (s : St) (t : Thread) (hc : Coh s) (hf : fresh t) :
     Coh (runToEnd s t) ∧
     (runToEnd s t).inner = (match t with
       | .put id v _ => Cache.Part.insert s.inner id v
       | .get _ _ _ _ => s.inner
-      | .delete id _ => erase s.inner id) ∧
+      | .delete id _ _ => erase s.inner id) ∧
     (runToEnd s t).returned = (match t with
       | .get id fl _ _ => if getFails s id fl then s.returned else (id, lookup s.inner id) :: s.returned
       | _ => s.returned) ∧
@@ -985,15 +987,18 @@ theorem runToEnd_fresh (s : St) (t : Thread) (hc : Coh s) (hf : fresh t) :
     split at h
     · next e => rw [if_pos e]; exact h
     · next e => rw [if_neg e]; exact hc id' v' h
-  | delete id pc =>
+  | delete id cf pc =>
     simp only [fresh] at hf; subst hf
-    refine ⟨?_, rfl, rfl, by intro _ _ _ _ h; cases h⟩
-    intro id' v' h
-    simp only [runToEnd, stepThread] at h ⊢
-    rw [lookup_erase] at h ⊢
-    split at h
-    · cases h
-    · next e => rw [if_neg e]; exact hc id' v' h
+    have key : Coh { s with inner := erase s.inner id, cache := erase s.cache id } := by
+      intro id' v' h
+      simp only [] at h ⊢
+      rw [lookup_erase] at h ⊢
+      split at h
+      · cases h
+      · next e => rw [if_neg e]; exact hc id' v' h
+    cases cf
+    · exact ⟨key, rfl, rfl, by intro _ _ _ _ h; cases h⟩
+    · exact ⟨key, rfl, rfl, by intro _ _ _ _ h; cases h⟩
   | get id fl pc sn =>
     simp only [fresh] at hf; obtain ⟨h1, h2⟩ := hf; subst h1 h2
     cases hl : lookup s.cache id with
@@ -1079,20 +1084,110 @@ theorem spec_eq_ref (ts : List Thread) (hts : ∀ t ∈ ts, fresh t)
       simp only [spec, ref, getFails, Bool.false_and, Bool.false_eq_true, if_false, List.singleton_append]
       rw [this, h2]
     | put id v pc => simp only [spec, ref, List.nil_append]; rw [this, h2]
-    | delete id pc => simp only [spec, ref, List.nil_append]; rw [this, h2]
+    | delete id cf pc => simp only [spec, ref, List.nil_append]; rw [this, h2]
+
+/-! ### a DeletePart with GetParts served while it is in flight -/
+
+/-- Coherence of every id but one. -/
+def CohX (id : Nat) (s : St) : Prop := ∀ id' v, id' ≠ id → lookup s.cache id' = some v → lookup s.inner id' = some v
+
+def isGet : Thread → Prop
+  | .get _ _ _ _ => True
+  | _ => False
+
+theorem runToEnd_get (s : St) (x : Nat) (id : Nat) (fl : Bool) (hc : CohX x s) :
+    (runToEnd s (.get id fl .lookup none)).inner = s.inner ∧ CohX x (runToEnd s (.get id fl .lookup none)) := by
+  cases hl : lookup s.cache id with
+  | some v => simp only [runToEnd, stepThread, hl]; exact ⟨trivial, hc⟩
+  | none =>
+    cases hin : lookup s.inner id with
+    | none => simp only [runToEnd, stepThread, hl, hin]; exact ⟨trivial, hc⟩
+    | some v =>
+      cases fl with
+      | true => simp only [runToEnd, stepThread, hl, hin, if_true]; exact ⟨trivial, hc⟩
+      | false =>
+        simp only [runToEnd, stepThread, hl, hin, Bool.false_eq_true, if_false]
+        refine ⟨trivial, ?_⟩
+        intro id' v' hne h
+        simp only [] at h ⊢
+        rw [lookup_insert] at h
+        split at h
+        · next e => subst e; rw [hin]; exact h
+        · exact hc id' v' hne h
+
+theorem serial_gets (x : Nat) (gs : List Thread) (hg : ∀ t ∈ gs, isGet t ∧ fresh t) (s : St) (hc : CohX x s) :
+    (serial s gs).inner = s.inner ∧ CohX x (serial s gs) := by
+  induction gs generalizing s with
+  | nil => exact ⟨rfl, hc⟩
+  | cons t ts ih =>
+    obtain ⟨hget, hf⟩ := hg t (by simp)
+    cases t with
+    | get id fl pc sn =>
+      simp only [fresh] at hf; obtain ⟨h1, h2⟩ := hf; subst h1 h2
+      obtain ⟨a, b⟩ := runToEnd_get s x id fl hc
+      obtain ⟨c, d⟩ := ih (fun t' ht' => hg t' (by simp [ht'])) _ b
+      simp only [serial]
+      exact ⟨c.trans a, d⟩
+    | put => exact absurd hget (by simp [isGet])
+    | delete => exact absurd hget (by simp [isGet])
+
+/-- **delete_window_leaves_no_entry.** DeletePart in the order of the code (inner store first, cache entry
+second): whatever GetParts — of this or other ids, with or without failing sources — are served completely
+while the delete is in flight between its two steps, once it has returned neither the inner store nor the cache
+holds anything under the id, and the cache is coherent again; so (`getpart_bytes_or_notfound_partial`) every later
+GetPart of the id answers not-found. -/
+theorem delete_window_leaves_no_entry (s : St) (hc : Coh s) (id : Nat) (gs : List Thread)
+    (hg : ∀ t ∈ gs, isGet t ∧ fresh t) :
+    let s1 := (stepThread s (.delete id false 0)).1
+    let s3 := (stepThread (serial s1 gs) (.delete id false 1)).1
+    lookup s3.inner id = none ∧ lookup s3.cache id = none ∧ Coh s3 := by
+  intro s1 s3
+  have hx : CohX id s1 := by
+    intro id' v' hne h
+    simp only [s1, stepThread, Bool.false_eq_true, if_false] at h ⊢
+    rw [lookup_erase, if_neg hne]
+    exact hc id' v' h
+  obtain ⟨hin, hcx⟩ := serial_gets id gs hg s1 hx
+  have hinner : lookup s3.inner id = none := by
+    simp only [s3, stepThread, Bool.false_eq_true, if_false]
+    rw [hin]
+    simp only [s1, stepThread, Bool.false_eq_true, if_false]
+    rw [lookup_erase]; simp
+  have hcache : lookup s3.cache id = none := by
+    simp only [s3, stepThread, Bool.false_eq_true, if_false]
+    rw [lookup_erase]; simp
+  refine ⟨hinner, hcache, ?_⟩
+  intro id' v' h
+  by_cases e : id' = id
+  · subst e; rw [hcache] at h; cases h
+  · have h' : lookup (serial s1 gs).cache id' = some v' := by
+      simp only [s3, stepThread, Bool.false_eq_true, if_false] at h
+      rw [lookup_erase, if_neg e] at h
+      exact h
+    have := hcx id' v' e h'
+    simpa only [s3, stepThread, Bool.false_eq_true, if_false] using this
+
+/-- **Witness** (seeded change C19-3; realised on the real cache part store by a gated inner part store): with
+the cache entry removed FIRST, a GetPart served while the inner delete is still pending misses, reads the part and
+re-fills the cache; after the delete has returned the cache serves the deleted bytes. -/
+theorem cache_first_delete_goes_stale :
+    let s0 : St := { init [] with inner := [(0, 7)], cache := [(0, 7)], puts := [(0, 7)] }
+    let s1 := (stepThread s0 (.delete 0 true 0)).1
+    let s3 := (stepThread (serial s1 [.get 0 false .lookup none]) (.delete 0 true 1)).1
+    lookup s3.inner 0 = none ∧ (serial s3 [.get 0 false .lookup none]).returned.head? = some (0, some 7) := by decide
 
 /-- **Witness** (known finding `C19.partstore-late-fill-serves-stale-bytes`; realised on the real cache part
 store by scripted schedule 0): a GetPart that missed is still streaming when a DeletePart of the id
 completes; its late fill puts the deleted bytes back, and a GetPart issued afterwards returns them although
 the inner store has nothing under the id. -/
 theorem late_fill_serves_deleted_part :
-    let s := run { init [.get 0 false .lookup none, .delete 0 0, .get 0 false .lookup none] with inner := [(0, 7)], puts := [(0, 7)] }
+    let s := run { init [.get 0 false .lookup none, .delete 0 false 0, .get 0 false .lookup none] with inner := [(0, 7)], puts := [(0, 7)] }
       [0, 0, 1, 1, 0, 2]
     s.inner = [] ∧ s.returned = [(0, some 7), (0, some 7)] := by decide
 
 /-- Non-vacuity of the sequential theorem: the same three calls, not overlapping, answer `7` then not-found. -/
 example : (serial { init [] with inner := [(0, 7)], puts := [(0, 7)] }
-    [.get 0 false .lookup none, .delete 0 0, .get 0 false .lookup none]).returned = [(0, none), (0, some 7)] := by decide
+    [.get 0 false .lookup none, .delete 0 false 0, .get 0 false .lookup none]).returned = [(0, none), (0, some 7)] := by decide
 
 /-- Non-vacuity of the fault clauses: a fill that fails (nothing returned, nothing cached), then a healthy read
 of the complete value, then a failing source that no longer matters because the value is cached. -/
@@ -1123,6 +1218,11 @@ theorem set_unlock_is_not_deferred : setUnlockDeferred = false := by decide
 /-- The source shapes the model is instantiated from are ones it knows. -/
 theorem lfu_variant_recognised :
     (guardedOfCond lfuLoopCond).isSome = true ∧ (dedupeOfRemoves lfuRemovesBeforeLoop).isSome = true := by decide
+
+/-- The cache part store touches the cache only AFTER the inner store has done its part: DeletePart removes the
+entry after the inner delete (`delete_window_leaves_no_entry` is about that order; the other order goes stale:
+`Part.cache_first_delete_goes_stale`), PutPart caches after the inner put. -/
+theorem partstore_cache_follows_inner : partStoreDeleteCacheFirst = false ∧ partStorePutCacheFirst = false := by decide
 
 /-- Race freedom as a checkable discipline: persistor calls made outside `mu` are race-free exactly when the
 persistor synchronises itself. `raceFree` is evaluated by the driver on every run (it is `false` for the
